@@ -286,6 +286,91 @@ def ort_before_after(s: int, m: int, value) -> Optional[dict]:
 # ----------------------------------------------------------------------------- the check
 
 
+def multi_pair_model(pairs: list[dict]):
+    """One graph holding several independent Cast round trips (history inside one pass run).
+    pair = {"kind": "input"|"range", "s": code, "m": code, ["triple": (a,l,d)]}"""
+    import onnx_ir as ir
+    import irtools
+    nodes, inits, inputs, outputs = [], [], [], []
+    for k, p in enumerate(pairs):
+        sd, md = ir.DataType(p["s"]), ir.DataType(p["m"])
+        if p["kind"] == "range":
+            a, l, d = p["triple"]
+            npdt = sd.numpy()
+            cs = irtools.const_val(f"start{k}", np.asarray(a, dtype=npdt))
+            cl = irtools.const_val(f"limit{k}", np.asarray(l, dtype=npdt))
+            cd = irtools.const_val(f"delta{k}", np.asarray(d, dtype=npdt))
+            inits += [cs, cl, cd]
+            src = ir.val(f"range{k}", sd, (len(range(a, l, d)),))
+            nodes.append(ir.Node(op_type="Range", domain="", inputs=[cs, cl, cd], outputs=[src], name=f"rng{k}"))
+        else:
+            src = ir.val(f"x{k}", sd, (4,))
+            inputs.append(src)
+        mid = ir.val(f"mid{k}", md, src.shape)
+        out = ir.val(f"y{k}", sd, src.shape)
+        nodes.append(ir.Node(op_type="Cast", domain="", inputs=[src], outputs=[mid], name=f"c1_{k}",
+                             attributes=[_cast_attr(p["m"])]))
+        nodes.append(ir.Node(op_type="Cast", domain="", inputs=[mid], outputs=[out], name=f"c2_{k}",
+                             attributes=[_cast_attr(p["s"])]))
+        outputs.append(out)
+    g = ir.Graph(name="multipair", inputs=inputs, outputs=outputs, nodes=nodes, initializers=inits,
+                 opset_imports={"": 23})
+    return irtools.make_model(g)
+
+
+def check_multi_pairs(chk: Check, rng: common.Rng, n_graphs: int) -> None:
+    """Each round trip of a graph must be decided on its own merits: a pair is removed only if the
+    reference accepts its types or its own Range bounds fit (no carry-over between pairs)."""
+    opt = _opt()
+    lines, meta = [], []
+    for _ in range(n_graphs):
+        pairs = []
+        for _ in range(rng.randint(2, 4)):
+            kind = rng.choice(["input", "range", "range", "input"])
+            s = 7
+            m = rng.choice([6, 6, 5, 3, 12, 11])
+            p = {"kind": kind, "s": s, "m": m}
+            if kind == "range":
+                base = rng.choice([0, 0, 100, 2 ** 31 - 3, -(2 ** 31) - 2, 2 ** 15 - 2, 250])
+                d = rng.choice([1, 2, 3, -1, -2])
+                n = rng.randint(0, 5)
+                p["triple"] = (base, base + n * d + (1 if d > 0 else -1) * rng.randint(0, 1), d)
+            pairs.append(p)
+        if rng.chance(0.5):
+            # the dangerous order: provable pairs first, dynamic ones later
+            pairs.sort(key=lambda q: 0 if q["kind"] == "range" else 1)
+        try:
+            model = multi_pair_model(pairs)
+        except Exception:
+            continue
+        opt.remove_redundant_casts_ir(model.graph)
+        remaining = {n.name for n in model.graph}
+        for k, p in enumerate(pairs):
+            folded = f"c2_{k}" not in remaining
+            if p["kind"] == "range":
+                a, l, d = p["triple"]
+                lines.append(f"kf {p['s']} {p['m']} {a} {l} {d}")
+            else:
+                lines.append(f"ok {p['s']} {p['m']}")
+            meta.append((pairs, k, folded))
+    answers = common.run_driver("C17", lines) if lines else []
+    bad = []
+    for (pairs, k, folded), ans in zip(meta, answers):
+        chk.count({"op": "multi_pair", "pairs": pairs, "k": k, "folded": folded}, nontrivial=folded)
+        if folded and ans != "true":
+            bad.append({"pairs": pairs, "pair_index": k})
+    chk.info("multi_pair_graphs", {"pairs_checked": len(meta), "removed_without_justification": len(bad)})
+    for b in bad[:3]:
+        p = b["pairs"][b["pair_index"]]
+        # concrete failing input: feed a value outside the intermediate type to the dynamic pair
+        rep = dict(b)
+        if p["kind"] == "input":
+            rep["witness"] = "feed 2**40 to input x%d: before the pass the round trip wraps, after it does not" % b["pair_index"]
+        chk.finding({"kind": "pair_removed_without_own_justification", "pair": p["kind"], "s": p["s"], "m": p["m"]},
+                    f"in a graph with several round trips, pair {b['pair_index']} ({p['kind']} {p['s']}->{p['m']}) "
+                    f"is removed although neither the type table nor its own value range justifies it", rep)
+
+
 def check_finfo(chk: Check) -> None:
     """Cross-check the reference's float triples (Lean kindOf) against numpy/ml_dtypes finfo."""
     import ml_dtypes
@@ -446,6 +531,8 @@ def run(chk: Check) -> None:
                 chk.finding({"kind": "range_roundtrip_dropped", "start": a, "limit": l, "delta": d, "mid": mid},
                             f"Range({a},{l},{d}) -> Cast({mid}) -> Cast({src}) optimised to a different result",
                             {"ort": res, "via": via})
+
+    check_multi_pairs(chk, rng, 150 if not thorough else 1500)
 
     # ---- validation of the reference against the runtime (numpy conversions) --------------
     swept = validate_reference(chk, rng, thorough)
